@@ -39,6 +39,9 @@ func shortList(l []int64) string {
 func check(t *testing.T, c Case) (v harness.Verdict) {
 	c.normalise()
 	tr := buildSource(c.final(), c.Seed, c.DupMod, c.SameTS)
+	if c.BigN > 0 {
+		inflate(tr, c.BigAt, c.BigN, c.BigKB)
+	}
 	full := &mtree.Tree{}
 	for i := range tr {
 		full.Append(tr[i].Leaf)
@@ -107,6 +110,11 @@ func check(t *testing.T, c Case) (v harness.Verdict) {
 				}
 			}
 		case "entries":
+			if e.Fault == fEmpty {
+				// the unchanged Fetcher hands the empty page on as an empty batch, which the backend refuses
+				// (InvalidArgument: no leaves): the tail may fail - but it may not be reported as copied
+				passFaults[e.Pass] = true
+			}
 			if e.BeyondSTH && !beyondFlagged {
 				beyondFlagged = true
 				v.Failf("fetch-beyond-verified-size", "get-entries start=%d end=%d requested although the largest tree size announced under a valid signature is %d (a head that does not verify was taken on trust)", e.First, e.Second, maxSTH)
@@ -124,6 +132,9 @@ func check(t *testing.T, c Case) (v harness.Verdict) {
 			cur.adds = append(cur.adds, e)
 			if e.Status != 0 && e.Status != int(codes.ResourceExhausted) && e.Status != int(codes.Canceled) {
 				cur.fatal = true
+			}
+			if e.Served == 0 && e.Status == 0 {
+				cur.fatal = true // a request without leaves (from an empty get-entries page): the backend refuses it (InvalidArgument)
 			}
 			req := o.adds[e.CallIdx].Req.(*trillian.AddSequencedLeavesRequest)
 			if req.LogId != treeID {
@@ -413,6 +424,12 @@ func classify(c *Case, o *outcome, tr []truth, v *harness.Verdict) {
 	if c.final() == 0 {
 		v.Class("source:empty")
 	}
+	if c.BigN > 0 {
+		v.Class("source:megabyte-entries")
+		if c.BigN*c.BigKB > 3<<10 && c.Batch >= c.BigN {
+			v.Class("source:batch>3MiB-possible")
+		}
+	}
 	if c.Fetchers > 1 {
 		v.Class("fetchers>1")
 	}
@@ -458,6 +475,8 @@ func classify(c *Case, o *outcome, tr []truth, v *harness.Verdict) {
 				cl = "src:entries-5xx"
 			case e.Fault == fSlow:
 				cl = "src:entries-timeout"
+			case e.Fault == fEmpty:
+				cl = "src:entries-empty-page"
 			case e.Fault != fNone:
 				cl = "src:entries-network/body"
 			case e.Short:
